@@ -34,8 +34,9 @@ Print Assumptions C19_content_length_numeric.
 
 (** The witnesses of the repaired defects are rejected as malformed. *)
 Example C19_dup_witness_rejected :
-  parseHeaders true 65536 dup_witness false = inl (EMalformed DupPseudo) /\
-  parseHeaders false 65536 [mk ":status" ""; mk ":status" "200"] false = inl (EMalformed DupPseudo).
+  parseHeaders true 65536 dup_witness false = inl (EMalformed EmptyPseudo) /\
+  parseHeaders false 65536 [mk ":status" ""; mk ":status" "200"] false = inl (EMalformed EmptyPseudo) /\
+  parseHeaders true 65536 [mk ":method" "GET"; mk ":path" "/b"; mk ":path" "/a"] false = inl (EMalformed DupPseudo).
 Proof. exact dup_witness_rejected. Qed.
 Print Assumptions C19_dup_witness_rejected.
 
@@ -102,8 +103,7 @@ Theorem C19_trailers_iff : forall lim fs,
 Proof. exact parseTrailers_iff. Qed.
 Print Assumptions C19_trailers_iff.
 
-(** Request construction: what requestFromHeaders enforces ([request_rules_x]: by emptiness,
-    :scheme only for extended CONNECT) ... *)
+(** Request construction: what requestFromHeaders enforces ([request_rules_x]) ... *)
 Theorem C19_request_rules : forall lim fs te uri r,
   0 <= lim -> requestFromHeaders lim fs te uri = inr r ->
   te = false /\ WF true lim fs /\ request_rules_x fs /\
@@ -112,23 +112,32 @@ Theorem C19_request_rules : forall lim fs te uri r,
 Proof. exact requestFromHeaders_sound. Qed.
 Print Assumptions C19_request_rules.
 
-(** ... which is the RFC's rule set (by presence) whenever no pseudo-header is empty and the
-    one thing the code never looks at, :scheme of a non-extended request, is as the RFC wants. *)
-Theorem C19_request_rules_rfc : forall fs,
-  request_rules_x fs -> no_empty_pseudo fs -> scheme_rule fs -> request_rules fs.
-Proof. exact request_rules_from_x. Qed.
+(** ... which is the RFC's rule set (by presence; empty pseudo-header values are malformed, so
+    emptiness and absence coincide) except for the one thing the code still does not look at: the
+    presence of :scheme on a non-CONNECT request. *)
+Theorem C19_request_rules_rfc : forall lim fs,
+  WF true lim fs -> request_rules_x fs -> scheme_rule fs -> request_rules fs.
+Proof. exact request_rules_rfc. Qed.
 Print Assumptions C19_request_rules_rfc.
 
-(** FINDINGS still open (low severity): a request without :scheme, and a CONNECT with :scheme, are accepted. *)
+(** FINDING still open (low severity, pinned by the in-tree TestRequestHeaderParsing): a request
+    without :scheme is accepted. *)
 Theorem C19_request_scheme_refuted :
   exists fs r, requestFromHeaders 65536 fs false any_uri = inr r /\ ~ request_rules fs.
 Proof. exact request_scheme_refuted. Qed.
 Print Assumptions C19_request_scheme_refuted.
 
-Theorem C19_connect_scheme_refuted :
-  exists fs r, requestFromHeaders 65536 fs false any_uri = inr r /\ ~ request_rules fs.
-Proof. exact connect_scheme_refuted. Qed.
-Print Assumptions C19_connect_scheme_refuted.
+(** The witnesses of the repaired CONNECT deviations (CONNECT with :scheme, with an empty :path,
+    with an empty :protocol) are rejected as malformed. *)
+Example C19_connect_witnesses_rejected :
+  requestFromHeaders 65536 [mk ":method" "CONNECT"; mk ":authority" "example.com:443"; mk ":scheme" "https"] false any_uri
+    = inl (EMalformed ConnectSchemeRule) /\
+  requestFromHeaders 65536 [mk ":method" "CONNECT"; mk ":authority" "example.com:443"; mk ":path" ""] false any_uri
+    = inl (EMalformed EmptyPseudo) /\
+  requestFromHeaders 65536 [mk ":method" "CONNECT"; mk ":protocol" ""; mk ":authority" "example.com:443"] false any_uri
+    = inl (EMalformed EmptyPseudo).
+Proof. exact connect_witnesses_rejected. Qed.
+Print Assumptions C19_connect_witnesses_rejected.
 
 (** Responses: :status present, non-empty, an integer. *)
 Theorem C19_response_rules : forall lim fs te r,
